@@ -620,6 +620,50 @@ func c09ScenarioList() []c09Scenario {
 	}
 }
 
+// c09HeldOracle wraps the terminal oracle final of a full-stack scenario with the invariant of the 'held' scenarios:
+// from its from-th statement on, until it starts to commit (or, having changed nothing, to release), process 1 holds
+// table tbl for update - in no state may the step just taken by process 2 be the installation of new contents of it.
+func c09HeldOracle(final func(w *fsx.World) []fsx.Violation, tbl string, from int, noCounter bool) func(w *fsx.World) []fsx.Violation {
+	// the number of statement points of process 1's whole program, learnt from the first execution (all defaults:
+	// process 1 runs to its end before process 2 starts); the transaction may end only after the last of them
+	lastStmt := 0
+	return func(w *fsx.World) []fsx.Violation {
+		var out []fsx.Violation
+		if w.Final {
+			for _, v := range final(w) {
+				if !(noCounter && strings.HasPrefix(v.Sig, "I2:")) {
+					out = append(out, v)
+				}
+			}
+		}
+		// process 1 holds the table from the end of its locking SELECT until it starts to commit: in no state
+		// may the step just taken by process 2 be the installation of new contents of that table
+		p1, p2 := w.Procs[0], w.Procs[1]
+		stmts, committing := 0, false
+		for _, l := range p1.Log() {
+			if strings.HasPrefix(l, "stmt") {
+				stmts++
+			}
+			if stmts >= lastStmt && lastStmt > 0 && (strings.HasPrefix(l, "rename") || strings.HasPrefix(l, "truncate")) {
+				committing = true
+			}
+			// a transaction that changed nothing ends by releasing the table: its first close of one of the
+			// table's files after its last statement has begun is the end of the hold
+			if stmts >= from && stmts >= lastStmt && lastStmt > 0 && (strings.HasPrefix(l, "close") || strings.HasPrefix(l, "remove")) && strings.Contains(l, tbl+".csv") {
+				committing = true
+			}
+		}
+		if p1.Done() && stmts > lastStmt {
+			lastStmt = stmts
+		}
+		l2 := p2.Log()
+		if stmts >= from && lastStmt > 0 && !committing && !p1.Done() && len(l2) > 0 && strings.HasPrefix(l2[len(l2)-1], "rename") && strings.Contains(l2[len(l2)-1], tbl+".csv") {
+			out = append(out, fsx.Violation{Sig: "I1:written-while-held-for-update", Msg: fmt.Sprintf("%s installs new contents of %s.csv while %s, whose statement that took that table for update (SELECT ... FOR UPDATE or a data-changing statement) has completed, has not ended its transaction", p2.Name, tbl, p1.Name)})
+		}
+		return out
+	}
+}
+
 func c09Setup(tables map[string]int) func(dir string) {
 	return func(dir string) {
 		for t, n := range tables {
@@ -650,45 +694,7 @@ func c09RunScenario(c *core.Ctx, s c09Scenario, deadline time.Time, replay []str
 			sc.Check = c09SeqInsertOracle(s.tables["t.csv"])
 		}
 		if s.heldFrom > 0 {
-			final, from, noCounter := sc.Check, s.heldFrom, s.noCounter
-			// the number of statement points of process 1's whole program, learnt from the first execution (all defaults:
-			// process 1 runs to its end before process 2 starts); the transaction may end only after the last of them
-			lastStmt := 0
-			sc.Check = func(w *fsx.World) []fsx.Violation {
-				var out []fsx.Violation
-				if w.Final {
-					for _, v := range final(w) {
-						if !(noCounter && strings.HasPrefix(v.Sig, "I2:")) {
-							out = append(out, v)
-						}
-					}
-				}
-				// process 1 holds the table from the end of its locking SELECT until it starts to commit: in no state
-				// may the step just taken by process 2 be the installation of new contents of that table
-				p1, p2 := w.Procs[0], w.Procs[1]
-				stmts, committing := 0, false
-				for _, l := range p1.Log() {
-					if strings.HasPrefix(l, "stmt") {
-						stmts++
-					}
-					if stmts >= lastStmt && lastStmt > 0 && (strings.HasPrefix(l, "rename") || strings.HasPrefix(l, "truncate")) {
-						committing = true
-					}
-					// a transaction that changed nothing ends by releasing the table: its first close of one of the
-					// table's files after its last statement has begun is the end of the hold
-					if stmts >= from && stmts >= lastStmt && lastStmt > 0 && (strings.HasPrefix(l, "close") || strings.HasPrefix(l, "remove")) && strings.Contains(l, tbl+".csv") {
-						committing = true
-					}
-				}
-				if p1.Done() && stmts > lastStmt {
-					lastStmt = stmts
-				}
-				l2 := p2.Log()
-				if stmts >= from && lastStmt > 0 && !committing && !p1.Done() && len(l2) > 0 && strings.HasPrefix(l2[len(l2)-1], "rename") && strings.Contains(l2[len(l2)-1], tbl+".csv") {
-					out = append(out, fsx.Violation{Sig: "I1:written-while-held-for-update", Msg: fmt.Sprintf("%s installs new contents of %s.csv while %s, whose SELECT ... FOR UPDATE on that table has completed, has not ended its transaction", p2.Name, tbl, p1.Name)})
-				}
-				return out
-			}
+			sc.Check = c09HeldOracle(sc.Check, tbl, s.heldFrom, s.noCounter)
 		}
 	}
 	// map iteration order is an environment answer the harness owns: every range over a Go map inside csvq visits its
